@@ -168,7 +168,7 @@ func H_StartPathGradient() {
 	maxStops := vp.Param("stops", 3)
 	c := m.CReg[(m.CSel+64-adj)%64]
 	vp.Assume(vp.All(c.A == 0, c.B&0x80 != 0, int(c.R&0x3f) <= maxStops)) // a gradient-encoding value
-	vp.Assume(vp.Or(c.R != 0, c.G != 0)) // (R,G,B <= A = 0 would be transparent black, a flat colour)
+	vp.Assume(vp.Or(c.R != 0, c.G != 0))                                  // (R,G,B <= A = 0 would be transparent black, a flat colour)
 	want, ok2 := m.PaintFor(adj, 16)
 	z.StartPath(adj, 1, 2)
 	kind, _, g := z.VPFill()
